@@ -39,9 +39,9 @@ def run(ctx):
         keys.setdefault(k, []).append((r, es, ec))
     for k, rs in sorted(keys.items()):
         r, es, ec = rs[0]
-        ctx.violate(k, "stats --mode restore-size for selection %s of scenario %d (hard-link pattern %s, %d snapshots): total_size=%d total_file_count=%d snapshots_count=%d; "
+        ctx.violate(k, "stats --mode restore-size for selection %s of scenario %d (hard-link pattern %s, history %s, %d snapshots): total_size=%d total_file_count=%d snapshots_count=%d; "
                        "source entries give size=%d count=%d; restore wrote %d bytes (%d on disk) (%d records of this class)"
-                    % (r["selection"], r["scenario"], r["pattern"], len(r["snaps"]), r["stats_size"], r["stats_count"], r["stats_snapshots"], es, ec,
+                    % (r["selection"], r["scenario"], r["pattern"], "b" + r.get("plan", ""), len(r["snaps"]), r["stats_size"], r["stats_count"], r["stats_snapshots"], es, ec,
                        r["restore_bytes"], r["disk_bytes"], len(rs)), r)
     res = ctx.go_results[-1]
     cov = {"evaluations": n, "distinct_nontrivial": res["distinct_nontrivial"], "rule": res["rule"],
@@ -49,6 +49,7 @@ def run(ctx):
            "counters": res.get("counters", {}), "exhaustive": False}
     return verif.finish(ctx, "exploration", cov,
                         ["Fn_Stats.tla computes entry count and restore size from the entries the harness found in the source tree by lstat (type, size, hard-link inode id), hard-link groups once per snapshot; TLC evaluates RecOK on every (history, selection)",
-                         "a snapshot of an absolute path also contains the chain of ancestor directories; they are counted as entries",
+                         "histories follow a plan per scenario: after the first backup each step is a mutation + backup or a backup repeated with no change at all (identical root tree; 1 or 2 repeats, also mixed with differing snapshots); every selection is evaluated on every history",
+                         "the tree is backed up as the relative target 'src' from its parent directory (no chain of ancestor directories, so that an unchanged repeat really has the identical root tree); the directory itself counts as one entry",
                          "'data a restore writes' = bytes_restored of the JSON summary of a real fresh `restic restore` of each selected snapshot, and the sizes of the distinct regular-file inodes on disk afterwards",
                          "file sizes <= 300 kB so that totals fit TLC's 32-bit integers; repository version 2, default options"])
